@@ -94,12 +94,11 @@ Theorem c12_belongs_links : forall os ops s A,
 Proof. exact bt_history. Qed.
 Print Assumptions c12_belongs_links.
 
-(* belongs to: when the Unscoped operations of a history are Delete / Clear only, every foreign key
-   of the handle keeps pointing at a record, so Count and Find stay exact (c12_belongs_count_find).
-   Unscoped Replace/Append is excluded: c12_refuted_belongs_unscoped_replace. *)
+(* belongs to: along EVERY history, scoped or Unscoped, every foreign key of the handle keeps pointing
+   at a record, so Count and Find stay exact (c12_belongs_count_find).  (Unscoped Replace used to
+   delete the record it had just linked: fixed in /repo 5e2c10c.) *)
 Theorem c12_belongs_links_point_at_records : forall os ops s,
   wf_bt os s -> hist_ok_g KBelongs os (op_ok_bt os) s ops ->
-  Forall (fun uo => fst uo = false \/ no_values (snd uo)) ops ->
   tgt_ok os s -> tgt_ok os (final KBelongs os s ops).
 Proof. exact bt_links_point_at_records. Qed.
 Print Assumptions c12_belongs_links_point_at_records.
@@ -120,12 +119,6 @@ Proof. exact bt_find. Qed.
 Print Assumptions c12_belongs_count_find.
 
 (* where the code departs from the property (each reproduced on real gorm, corpus/C12) *)
-Theorem c12_refuted_belongs_unscoped_replace :
-  let s := final KBelongs [1] bt_init [(false, OAppend [[11]]); (true, OReplace [[12]])] in
-  links KBelongs s 1 = [12] /\ tgt s = [11] /\ find_ids KBelongs [1] s = [].
-Proof. exact refuted_belongs_unscoped_replace. Qed.
-Print Assumptions c12_refuted_belongs_unscoped_replace.
-
 Theorem c12_refuted_m2m_slice_replace :
   let s := final KM2M [1; 2] m2m_init [(false, OAppend [[11]; [12]]); (false, OReplace [[12]; [11]])] in
   links KM2M s 1 = [11; 12] /\
@@ -156,3 +149,15 @@ Example c12_former_belongs_unscoped_clear :
   links KBelongs s 1 = [] /\ tgt s = [12] /\
   map snd (run KBelongs [1] bt_init [(false, OAppend [[11]]); (true, OClear)]) = [false; false].
 Proof. exact former_belongs_unscoped_clear. Qed.
+
+(* the input of the third belongs-to defect fixed in /repo (5e2c10c): Unscoped().Replace(12) removes the
+   old record and keeps the new one; replacing a record by itself keeps it *)
+Example c12_former_belongs_unscoped_replace :
+  let s := final KBelongs [1] bt_init [(false, OAppend [[11]]); (true, OReplace [[12]])] in
+  links KBelongs s 1 = [12] /\ tgt s = [12] /\ find_ids KBelongs [1] s = [12].
+Proof. exact former_belongs_unscoped_replace. Qed.
+
+Example c12_belongs_unscoped_replace_same :
+  let s := final KBelongs [1] bt_init [(false, OAppend [[11]]); (true, OReplace [[11]])] in
+  links KBelongs s 1 = [11] /\ tgt s = [11; 12] /\ find_ids KBelongs [1] s = [11].
+Proof. exact belongs_unscoped_replace_same. Qed.
